@@ -80,6 +80,14 @@ def repeated_id_deletes(s):
                 idx += 1
                 if s.mine(idx):
                     K.run_case(s, ro_txt, kind, dict(story_ref='S', ids=ids), ctx={'repeated-ids': 'item'})
+    # a roReplace / roStoryAppend that itself carries an ID twice is applied as sent: nothing is skipped, nothing to report
+    ro_txt = gen.grid_ro(['A', 'B'], 'before', pretty=False)
+    for names in (['X', 'Y', 'X'], ['X', 'X'], ['A', 'A', 'B']):
+        idx += 1
+        if s.mine(idx):
+            rr = gen.grid_ro(names, 'none').replace('roCreate', 'roReplace').replace(
+                '<messageID>1</messageID>', '<messageID>9</messageID>')
+            s.step(s.load(ro_txt), rr, {'repeated-ids': 'roReplace'})
     s.hist['repeated_id_delete_cases'] = idx
 
 
